@@ -1261,6 +1261,29 @@ func (g *Gen) bitop(fr *frame, st *State, op token.Token, x, y *Value, rt types.
 			return &Value{T: rt, L: []string{"(mod " + b + " " + fmt.Sprint(n+1) + ")"}}
 		}
 	}
+	if bt, ok := types.Unalias(rt).Underlying().(*types.Basic); ok && bt.Kind() == types.Uint8 && (op == token.AND || op == token.OR || op == token.XOR || op == token.AND_NOT) {
+		// 8-bit operands: exact, bit by bit
+		var terms []string
+		for k := 0; k < 8; k++ {
+			ak := fmt.Sprintf("(= (mod (div %s %d) 2) 1)", a, 1<<uint(k))
+			bk := fmt.Sprintf("(= (mod (div %s %d) 2) 1)", b, 1<<uint(k))
+			var c string
+			switch op {
+			case token.AND:
+				c = smtAnd(ak, bk)
+			case token.OR:
+				c = smtOr(ak, bk)
+			case token.XOR:
+				c = "(xor " + ak + " " + bk + ")"
+			case token.AND_NOT:
+				c = smtAnd(ak, smtNot(bk))
+			}
+			terms = append(terms, fmt.Sprintf("(ite %s %d 0)", c, 1<<uint(k)))
+		}
+		r := g.fresh("bits8", sInt)
+		g.addCons(fmt.Sprintf("(= %s (+ %s))", r, strings.Join(terms, " ")))
+		return &Value{T: rt, L: []string{r}}
+	}
 	name := map[token.Token]string{token.AND: "bitand", token.OR: "bitor", token.XOR: "bitxor", token.AND_NOT: "bitandnot", token.SHL: "shl", token.SHR: "shr"}[op]
 	if name == "" {
 		g.errorf("%s: unsupported binary op %s", funcKey(fr.fn), op)
@@ -1557,7 +1580,57 @@ func (g *Gen) convert(fr *frame, st *State, x *Value, from, to types.Type) *Valu
 // bytesVal: abstract identity of the byte content of a []byte value in the current heap.
 func (g *Gen) bytesVal(st *State, s *Value) string {
 	c := g.compTerm(st, g.elemCompKey(types.Typ[types.Uint8], ""), arrSort(sInt, arrSort(sInt, sInt)))
-	return fmt.Sprintf("(bytesval %s %s %s)", smtSel(c, s.L[0]), s.L[1], s.L[2])
+	a := smtSel(c, s.L[0])
+	g.bytesFrame(a, s.L[1], s.L[2])
+	g.noteBytes(a, s.L[1], s.L[2])
+	return fmt.Sprintf("(bytesval %s %s %s)", a, s.L[1], s.L[2])
+}
+
+type arrDelta struct{ prev, lo, hi string }
+
+func (g *Gen) noteBytes(a, f, n string) {
+	for _, r := range g.bytesSeen[a] {
+		if r[0] == f && r[1] == n {
+			return
+		}
+	}
+	if len(g.bytesSeen[a]) < 6 {
+		g.bytesSeen[a] = append(g.bytesSeen[a], [2]string{f, n})
+	}
+}
+
+// bytesWrite: object array prev became next by a write confined to [lo,hi). Every range whose content identity was
+// mentioned on prev keeps that identity on next when it is disjoint from the written range (forward counterpart of
+// bytesFrame, needed when the later mention goes through a merged heap and cannot be traced back syntactically).
+func (g *Gen) bytesWrite(prev, next, lo, hi string) {
+	for _, r := range g.bytesSeen[prev] {
+		f, n := r[0], r[1]
+		g.addCons(fmt.Sprintf("(=> (or (<= (+ %s %s) %s) (<= %s %s)) (= (bytesval %s %s %s) (bytesval %s %s %s)))", f, n, lo, hi, f, next, f, n, prev, f, n))
+		g.noteBytes(next, f, n)
+	}
+}
+
+// bytesFrame: the content identity of a range does not depend on writes outside the range. The object array a is
+// followed back through its recorded writes (single stores, range-limited havocs, copies); for each step a fact
+// "range [f,f+n) disjoint from the written range => same identity before and after" is added.
+func (g *Gen) bytesFrame(a, f, n string) {
+	for depth := 0; depth < 8; depth++ {
+		d, ok := g.arrPrev[a]
+		if !ok {
+			if strings.HasPrefix(a, "(store ") {
+				parts := splitSexp(a)
+				if len(parts) == 4 {
+					d = arrDelta{parts[1], parts[2], "(+ " + parts[2] + " 1)"}
+					ok = true
+				}
+			}
+		}
+		if !ok {
+			return
+		}
+		g.addCons(fmt.Sprintf("(=> (or (<= (+ %s %s) %s) (<= %s %s)) (= (bytesval %s %s %s) (bytesval %s %s %s)))", f, n, d.lo, d.hi, f, a, f, n, d.prev, f, n))
+		a = d.prev
+	}
 }
 
 func (g *Gen) makeBound(fr *frame, st *State, i *ssa.MakeSlice, ln string) {
